@@ -44,12 +44,18 @@ func c13Sizes(c *C13Case) []int {
 	case "tiny":
 		n := 5 + r.Intn(30)
 		for i := 0; i < n; i++ {
-			s = append(s, r.Pick(0, 0, 1, 2, 126, 127, 128, 129, 300, 16383, 16384, 16385))
+			s = append(s, r.Pick(0, 0, 1, 2, 126, 127, 128, 129, 300, 16383, 16384, 16385, -1))
+		}
+		if r.Intn(2) == 0 {
+			s = append(s, -1) // the stream ends with an empty message
 		}
 	default:
 		n := 4 + r.Intn(14)
 		for i := 0; i < n; i++ {
-			s = append(s, r.Pick(0, 1, r.Intn(200), r.Intn(70000), K32-9, K32-10, K32, r.Intn(300000)))
+			s = append(s, r.Pick(0, 1, r.Intn(200), r.Intn(70000), K32-9, K32-10, K32, r.Intn(300000), -1))
+		}
+		if r.Intn(3) == 0 {
+			s = append(s, -1)
 		}
 	}
 	return s
@@ -113,6 +119,12 @@ func c13One(env *Env, m *wvlib.Model, c *C13Case) {
 	msgs := make([]*pwr.SyncOp, len(sizes))
 	lens := make([]string, len(sizes))
 	for i, n := range sizes {
+		if n < 0 {
+			// a message whose encoding is empty (all fields zero): only its length prefix is on the wire
+			msgs[i] = &pwr.SyncOp{}
+			lens[i] = "0"
+			continue
+		}
 		msgs[i] = &pwr.SyncOp{Type: pwr.SyncOp_DATA, Data: r.Bytes(n), FileIndex: int64(i)}
 		if i%5 == 4 {
 			msgs[i] = &pwr.SyncOp{Type: pwr.SyncOp_BLOCK_RANGE, FileIndex: int64(n), BlockIndex: int64(i), BlockSpan: 3}
@@ -251,7 +263,7 @@ func c13One(env *Env, m *wvlib.Model, c *C13Case) {
 
 func runC13(env *Env) {
 	R := env.R
-	R.Rule = "message sequences (sizes 0 .. > 4 MiB, lengths straddling 32 KiB and the power-of-two growth steps, large then small) x {none, gzip -2..9, brotli 0..9}; a save is requested at every message boundary, every popped checkpoint is gob-serialised and resumed in a new reader over the same bytes; distinct by (seed, compression); non-trivial = at least one checkpoint was popped and resumed"
+	R.Rule = "message sequences (sizes 0 .. > 4 MiB, messages with an empty encoding incl. as the last one, lengths straddling 32 KiB and the power-of-two growth steps, large then small) x {none, gzip -2..9, brotli 0..9}; a save is requested at every message boundary, every popped checkpoint is gob-serialised and resumed in a new reader over the same bytes; distinct by (seed, compression); non-trivial = at least one checkpoint was popped and resumed"
 	if env.Replay != "" {
 		var c C13Case
 		replayCase(env, &c)
